@@ -41,7 +41,7 @@ bool doubles_equal(double d1, double d2, double threshold)
 
     if (PlatformSpecificIsInf(d1) && PlatformSpecificIsInf(d2))
     {
-        return true;
+        return d1 == d2;
     }
 
     return PlatformSpecificFabs(d1 - d2) <= threshold;
